@@ -1039,6 +1039,151 @@ def gen_twolevel(repo):
 
 GENERATORS["TwoLevelGen"] = gen_twolevel
 
+# ---------------------------------------------------------------------------------------------------------------------------
+# MultistageCheckpointSchedule._iterator -> coq/Model/GenLang3.v (the nested helper write(n) is inlined at its call sites)
+LOC3 = {"cp_n": "Lcp", "n_snapshots": "Lns", "n0": "Ln0", "n1": "Ln1"}
+
+
+class _Subst(ast.NodeTransformer):
+    def __init__(self, name, repl):
+        self.name, self.repl = name, repl
+
+    def visit_Name(self, node):
+        return self.repl if node.id == self.name else node
+
+
+class GenTr3(GenTr2):
+    def __init__(self):
+        self.helpers = {}
+
+    def is_total(self, e):
+        return isinstance(e, ast.BinOp) and isinstance(e.op, ast.Add) and _self_attr(e.left) == "_snapshots_in_ram" and _self_attr(e.right) == "_snapshots_on_disk"
+
+    def is_label(self, e):
+        """self._storage[len(snapshots) - 1]"""
+        return (isinstance(e, ast.Subscript) and _self_attr(e.value) == "_storage" and isinstance(e.slice, ast.BinOp) and isinstance(e.slice.op, ast.Sub)
+                and isinstance(e.slice.right, ast.Constant) and e.slice.right.value == 1 and isinstance(e.slice.left, ast.Call)
+                and isinstance(e.slice.left.func, ast.Name) and e.slice.left.func.id == "len" and len(e.slice.left.args) == 1
+                and isinstance(e.slice.left.args[0], ast.Name) and e.slice.left.args[0].id == STACK)
+
+    def z(self, e):
+        if self.is_total(e):
+            return "ZTotal"
+        if isinstance(e, ast.Constant) and isinstance(e.value, int) and not isinstance(e.value, bool):
+            return "(ZC %s)" % (str(e.value) if e.value >= 0 else "(%d)" % e.value)
+        a = _self_attr(e)
+        if a in ("_n", "_r", "_max_n"):
+            return {"_n": "ZN", "_r": "ZR", "_max_n": "ZMax"}[a]
+        if isinstance(e, ast.Name) and e.id in LOC3:
+            return "(ZL %s)" % LOC3[e.id]
+        if isinstance(e, ast.BinOp) and type(e.op) in (ast.Add, ast.Sub):
+            return "(%s %s %s)" % ("ZAdd" if isinstance(e.op, ast.Add) else "ZSub", self.z(e.left), self.z(e.right))
+        if isinstance(e, ast.Call) and isinstance(e.func, ast.Name) and e.func.id == "len" and len(e.args) == 1 and isinstance(e.args[0], ast.Name) and e.args[0].id == STACK and not e.keywords:
+            return "ZLen"
+        if isinstance(e, ast.Call) and isinstance(e.func, ast.Name) and e.func.id == "n_advance" and len(e.args) == 2 and len(e.keywords) == 1 \
+                and e.keywords[0].arg == "trajectory" and _self_attr(e.keywords[0].value) == "_trajectory":
+            return "(ZNadv %s %s)" % (self.z(e.args[0]), self.z(e.args[1]))
+        if isinstance(e, ast.Subscript) and isinstance(e.value, ast.Name) and e.value.id == STACK and isinstance(e.slice, ast.UnaryOp) \
+                and isinstance(e.slice.op, ast.USub) and isinstance(e.slice.operand, ast.Constant) and e.slice.operand.value == 1:
+            return "ZTop"
+        raise Untranslatable("integer expression " + ast.dump(e)[:90])
+
+    def st(self, e):
+        if _is_st_const(e):
+            return "(SC %s)" % e.attr
+        if isinstance(e, ast.Name) and e.id == "cp_storage":
+            return "SCp"
+        raise Untranslatable("storage expression " + ast.dump(e)[:60])
+
+    def stmts(self, body):
+        body = [x for x in _strip_doc(body) if not (isinstance(x, ast.FunctionDef) and x.name in self.helpers)]
+        if not body:
+            return "SSkip"
+        parts = [self.stmt(x) for x in body]
+        out = parts[-1]
+        for x in reversed(parts[:-1]):
+            out = "(SSeq %s %s)" % (x, out)
+        return out
+
+    def stmt(self, s):
+        if isinstance(s, ast.Assign) and len(s.targets) == 1 and isinstance(s.targets[0], ast.Name):
+            t, v = s.targets[0].id, s.value
+            if t == STACK and isinstance(v, ast.List) and not v.elts:
+                return "SListNew"
+            if t == "cp_storage" and self.is_label(v):
+                return "SSetCp"
+            if t == "cp_storage" and isinstance(v, ast.Call) and isinstance(v.func, ast.Name) and v.func.id in self.helpers and len(v.args) == 1 and not v.keywords:
+                f = self.helpers[v.func.id]
+                body = _strip_doc(f.body)
+                if not body or not isinstance(body[-1], ast.Return) or any(isinstance(n, (ast.Return, ast.Yield)) for x in body[:-1] for n in ast.walk(x)):
+                    raise Untranslatable("helper %s: a single final return" % f.name)
+                sub = _Subst(f.args.args[0].arg, v.args[0])
+                inl = [sub.visit(ast.parse(ast.unparse(x)).body[0]) for x in body[:-1]]
+                inl.append(ast.Assign(targets=[ast.Name(id="cp_storage", ctx=ast.Store())], value=sub.visit(ast.parse(ast.unparse(body[-1].value), mode="eval").body)))
+                return self.stmts(inl)
+            if t in LOC3:
+                return "(SSetL %s %s)" % (LOC3[t], self.z(v))
+        if isinstance(s, ast.Assign) and len(s.targets) == 1 and _self_attr(s.targets[0]) == "_exhausted":
+            return "(SSetX %s)" % self.bool_c(s.value)
+        return GenTr2.stmt(self, s)
+
+
+def gen_multistage(repo):
+    _check_protocol(repo)
+    tree = ast.parse(open(os.path.join(repo, "checkpoint_schedules", "multistage.py")).read())
+    classes = {c.name: c for c in ast.walk(tree) if isinstance(c, ast.ClassDef)}
+    c = classes.get("MultistageCheckpointSchedule")
+    if c is None:
+        raise Untranslatable("class MultistageCheckpointSchedule")
+    ms = _methods(c)
+    f = ms.get("_iterator")
+    if f is None or [a.arg for a in f.args.args] != ["self"] or f.decorator_list:
+        raise Untranslatable("MultistageCheckpointSchedule._iterator(self)")
+    for m in ("__next__", "__iter__", "finalize", "n", "r", "max_n", "is_running"):
+        if m in ms:
+            raise Untranslatable("MultistageCheckpointSchedule overrides %s" % m)
+    ex = ms.get("is_exhausted")
+    exb = _strip_doc(ex.body) if ex is not None else []
+    if len(exb) != 1 or not isinstance(exb[0], ast.Return) or ast.unparse(exb[0].value) != "self._exhausted":
+        raise Untranslatable("MultistageCheckpointSchedule.is_exhausted is not `return self._exhausted`")
+    fi, asg, sup = _init_assigns(c)
+    if sup is None or ast.unparse(sup) != "super().__init__(max_n=max_n)":
+        raise Untranslatable("MultistageCheckpointSchedule.__init__: super().__init__(max_n=max_n)")
+    want = {"_snapshots_in_ram": "snapshots_in_ram", "_snapshots_on_disk": "snapshots_on_disk", "_storage": "storage", "_exhausted": "False", "_trajectory": "trajectory"}
+    for attr, val in want.items():
+        if attr not in asg or ast.unparse(asg[attr]) != val:
+            raise Untranslatable("MultistageCheckpointSchedule.__init__ does not set self.%s = %s" % (attr, val))
+    # the two counts are recounted from the tuple of labels just before they are stored
+    init_txt = [ast.unparse(x) for x in _strip_doc(fi.body)]
+    for need in ("snapshots_in_ram = storage.count(StorageType.RAM)", "snapshots_on_disk = storage.count(StorageType.DISK)"):
+        if need not in init_txt:
+            raise Untranslatable("MultistageCheckpointSchedule.__init__: `%s`" % need)
+    # the constructor, compared as text with what Multistage.construct (Model/Multistage.v) mirrors: clamp, the three ways the label
+    # tuple is built, the recount
+    MS_INIT = ("self, max_n, snapshots_in_ram, snapshots_on_disk, *, trajectory='maximum'",
+               "super().__init__(max_n=max_n)\nsnapshots_in_ram = min(snapshots_in_ram, max_n - 1)\nsnapshots_on_disk = min(snapshots_on_disk, max_n - 1)\n"
+               "if snapshots_in_ram == 0:\n    storage = tuple((StorageType.DISK for _ in range(snapshots_on_disk)))\nelif snapshots_on_disk == 0:\n"
+               "    storage = tuple((StorageType.RAM for _ in range(snapshots_in_ram)))\nelse:\n"
+               "    _, storage = allocate_snapshots(max_n, snapshots_in_ram, snapshots_on_disk, trajectory=trajectory)\n"
+               "snapshots_in_ram = storage.count(StorageType.RAM)\nsnapshots_on_disk = storage.count(StorageType.DISK)\nself._snapshots_in_ram = snapshots_in_ram\n"
+               "self._snapshots_on_disk = snapshots_on_disk\nself._storage = storage\nself._exhausted = False\nself._trajectory = trajectory")
+    got = (ast.unparse(fi.args), "\n".join(ast.unparse(x) for x in _strip_doc(fi.body)))
+    if got != MS_INIT:
+        raise Untranslatable("MultistageCheckpointSchedule.__init__ is not the constructor the model mirrors")
+    tr = GenTr3()
+    for x in f.body:
+        if isinstance(x, ast.FunctionDef):
+            if len(x.args.args) != 1 or x.decorator_list:
+                raise Untranslatable("nested helper %s" % x.name)
+            tr.helpers[x.name] = x
+    return "\n".join(["(* GENERATED by harness/translate.py from checkpoint_schedules/multistage.py (MultistageCheckpointSchedule._iterator) -- do not edit *)",
+                      "From Coq Require Import ZArith List Bool.", "From CS Require Import Actions Online GenLang3 GenMulti.", "Import ListNotations.", "Open Scope Z_scope.", "",
+                      "Definition multi_prog : stmt :=", "  %s." % tr.stmts(f.body),
+                      "Lemma multi_prog_is_model : multi_prog = GenMulti.multi_prog_model.", "Proof. reflexivity. Qed.", ""]) + "\n"
+
+
+GENERATORS["MultistageGen"] = gen_multistage
+
 
 if __name__ == "__main__":
     repo = os.environ.get("VERIF_REPO", "/repo")
